@@ -205,15 +205,24 @@ def state_probe(w):
         return None
 
 
-def fire(w, stream, call, args, kwargs):
+def fire(w, stream, call, args, kwargs, strict_warnings=False):
     """Call and observe. Returns (exc, bytes_written, stream_changed,
     append_fails, probe_before, probe_after)."""
+    import warnings
     before = stream.getvalue()
     m0 = stream.mark()
     p0 = state_probe(w)
     exc = None
     try:
-        getattr(w, call)(*args, **kwargs)
+        if strict_warnings:
+            # a process run with -W error: a warning the call emits is an
+            # exception leaving the call - "raises => atomic" applies to it
+            # like to any other
+            with warnings.catch_warnings():
+                warnings.simplefilter('error')
+                getattr(w, call)(*args, **kwargs)
+        else:
+            getattr(w, call)(*args, **kwargs)
     except Exception as e:
         exc = e
     written = writes_between(stream, m0)
@@ -261,6 +270,8 @@ def run_history(history, obs, variant_seed=0, weak_states=None):
                 weak_states.add(key)
                 fork_weak(accepted_prefix, wcall, wargs, wkw, wi, obs, case,
                           model.prev)
+                fork_weak(accepted_prefix, wcall, wargs, wkw, wi, obs, case,
+                          model.prev, strict_warnings=True)
         # 3. the call of the history itself
         args, kwargs = valid_args(call, step)
         verdict = model.verdict(call)
@@ -311,7 +322,9 @@ def run_history(history, obs, variant_seed=0, weak_states=None):
     return n_acc, n_rej
 
 
-def fork_weak(prefix, wcall, wargs, wkw, wi, obs, case, state):
+def fork_weak(prefix, wcall, wargs, wkw, wi, obs, case, state,
+              strict_warnings=False):
+    import warnings
     from pydiffx.writer import DiffXWriter
     stream = MonitoredStream()
     w = DiffXWriter(stream)
@@ -320,10 +333,16 @@ def fork_weak(prefix, wcall, wargs, wkw, wi, obs, case, state):
             getattr(w, c)(*a, **k)
     except Exception:
         return
-    exc, written, changed, fails, p0, p1 = fire(w, stream, wcall, wargs, wkw)
+    exc, written, changed, fails, p0, p1 = fire(w, stream, wcall, wargs, wkw,
+                                                strict_warnings)
     obs.count('weak_variants_fired')
+    if strict_warnings:
+        obs.count('weak_variants_fired_with_warnings_as_errors')
+        if isinstance(exc, Warning):
+            obs.count('weak_variant_raised_a_warning')
     wcase = dict(case, weak_variant=wi, state=state,
-                 prefix=[c for c, a, k in prefix])
+                 prefix=[c for c, a, k in prefix],
+                 strict_warnings=strict_warnings)
     if exc is not None:
         obs.count('weak_variant_raised')
         if written or changed:
@@ -347,7 +366,10 @@ def fork_weak(prefix, wcall, wargs, wkw, wi, obs, case, state):
                         getattr(w2, pc)(*pa, **pk)
                     if with_rejected:
                         try:
-                            getattr(w2, wcall)(*wargs, **wkw)
+                            with warnings.catch_warnings():
+                                if strict_warnings:
+                                    warnings.simplefilter('error')
+                                getattr(w2, wcall)(*wargs, **wkw)
                         except Exception:
                             pass
                     try:
